@@ -62,7 +62,7 @@ class CallMixin:
                      "sorted", "next", "iter", "print", "type", "abs", "super", "callable", "object", "setattr", "float",
                      # spec-only
                      "old", "forall", "exists", "implies", "fresh", "allocated", "at_loop", "iff", "typeis", "seq_eq",
-                     "count", "distinct_seq", "ite", "subseteq", "same_elems", "box", "nonnull", "unchanged", "unchanged_old", "keypos", "Seq", "some", "IntSeq", "countp", "prefixof", "suffixof", "strlen", "charat", "ir_clean", "box_get", "box_has"}
+                     "count", "distinct_seq", "ite", "subseteq", "same_elems", "box", "nonnull", "unchanged", "unchanged_old", "keypos", "Seq", "EmptySeq", "some", "IntSeq", "countp", "prefixof", "suffixof", "strlen", "charat", "ir_clean", "box_get", "box_has"}
 
     def _mod_consts(self, mod):
         c = self._consts_cache.get(mod)
